@@ -15,7 +15,15 @@ import (
 // relayed address, lifetime (its refresh period is half of it) and nonce.
 //
 //verif:props=C14,C19,C03,C12 replay=model unwind=40 bounds="one Client.Allocate over a loss-free exchange: 401 with an arbitrary 4-byte nonce, then success with an arbitrary IPv4 relayed address and any LIFETIME of 1..2^32-1 seconds (or an error response)"
-func VerifHarness_C14_client_allocate() {
+func VerifHarness_C14_client_allocate() { vClientAllocate(false) }
+
+// The same exchange through AllocateTCP (RFC 6062): the request asks for TCP transport and the TCP allocation works
+// with what the response granted.
+//
+//verif:props=C14,C19,C03,C12,C16 replay=model unwind=40 bounds="as C14_client_allocate, through Client.AllocateTCP"
+func VerifHarness_C14_client_allocate_tcp() { vClientAllocate(true) }
+
+func vClientAllocate(tcp bool) {
 	conn := &allocation.VPacketConn{Name: "client"}
 	c := vNewClient(conn, 200*time.Millisecond)
 	server := allocation.VUDPAddr4()
@@ -23,11 +31,16 @@ func VerifHarness_C14_client_allocate() {
 	c.username = stun.NewUsername("user")
 	c.password = "password"
 	var pc net.PacketConn
+	var ta *client.TCPAllocation
 	var err error
 	done := false
 	first := vSpawnCount()
 	go func() {
-		pc, err = c.Allocate()
+		if tcp {
+			ta, err = c.AllocateTCP()
+		} else {
+			pc, err = c.Allocate()
+		}
 		done = true
 	}()
 	vRunSpawn(first)
@@ -37,7 +50,11 @@ func VerifHarness_C14_client_allocate() {
 	vAssert(req1.Type == stun.NewType(stun.MethodAllocate, stun.ClassRequest), "C19.first_message_is_an_allocate_request")
 	vAssert(conn.Writes[0].Addr == net.Addr(server), "C19.allocate_goes_to_the_turn_server")
 	var rt proto.RequestedTransport
-	vAssert(rt.GetFrom(req1) == nil && rt.Protocol == proto.ProtoUDP, "C19.allocate_requests_udp_transport")
+	if tcp {
+		vAssert(rt.GetFrom(req1) == nil && rt.Protocol == proto.ProtoTCP, "C16.tcp_allocate_requests_tcp_transport")
+	} else {
+		vAssert(rt.GetFrom(req1) == nil && rt.Protocol == proto.ProtoUDP, "C19.allocate_requests_udp_transport")
+	}
 	// 401 with realm and nonce
 	nonce := vBytesN(4)
 	ch := &stun.Message{TransactionID: req1.TransactionID}
@@ -53,6 +70,12 @@ func VerifHarness_C14_client_allocate() {
 	var u stun.Username
 	var r stun.Realm
 	var n2 stun.Nonce
+	var rt2 proto.RequestedTransport
+	if tcp {
+		vAssert(rt2.GetFrom(req2) == nil && rt2.Protocol == proto.ProtoTCP, "C16.tcp_allocate_requests_tcp_transport")
+	} else {
+		vAssert(rt2.GetFrom(req2) == nil && rt2.Protocol == proto.ProtoUDP, "C19.allocate_requests_udp_transport")
+	}
 	vAssert(u.GetFrom(req2) == nil && u.String() == "user", "C03.authenticated_request_names_the_user")
 	vAssert(r.GetFrom(req2) == nil && r.String() == "realm", "C03.authenticated_request_echoes_the_challenge_realm")
 	vAssert(n2.GetFrom(req2) == nil && vBytesEq([]byte(n2), nonce), "C03.authenticated_request_echoes_the_challenge_nonce")
@@ -77,8 +100,17 @@ func VerifHarness_C14_client_allocate() {
 	vAssert(done, "C19.allocate_returns_after_the_second_response")
 	vAssume(done)
 	if failed {
-		vAssert(err != nil && pc == nil, "C19.error_response_fails_the_allocate")
-		vAssert(c.relayedUDPConn() == nil, "C19.failed_allocate_leaves_no_relayed_socket")
+		vAssert(err != nil && pc == nil && ta == nil, "C19.error_response_fails_the_allocate")
+		vAssert(c.relayedUDPConn() == nil && c.getTCPAllocation() == nil, "C19.failed_allocate_leaves_no_relayed_socket")
+	} else if tcp {
+		vAssert(err == nil && ta != nil, "C19.success_response_yields_a_relayed_socket")
+		vAssume(err == nil && ta != nil)
+		la := ta.Addr().(*net.TCPAddr)
+		vAssert(vAnd(vIPEq(la.IP, relay.IP), la.Port == relay.Port), "C19.relayed_socket_has_the_reported_relayed_address")
+		vAssert(ta.VLifetime() == time.Duration(secs)*time.Second, "C14.client_works_with_the_granted_lifetime")
+		vAssert(ta.VRefreshInterval() == time.Duration(secs)*time.Second/2, "C14.refresh_period_is_half_the_granted_lifetime")
+		vAssert(vBytesEq(ta.VNonce(), nonce), "C14.relayed_socket_starts_with_the_servers_nonce")
+		vAssert(c.relayedUDPConn() == nil, "C16.tcp_allocate_makes_no_udp_relay")
 	} else {
 		vAssert(err == nil && pc != nil, "C19.success_response_yields_a_relayed_socket")
 		vAssume(err == nil && pc != nil)
